@@ -1,4 +1,5 @@
 import CollectionsC.Proofs.PHashWF
+import CollectionsC.Proofs.PHashSet
 import CollectionsC.Properties.C02
 /-! # C02 (pointer level) — the raw `next` links and the bucket array of CC_HashTable
 
@@ -33,8 +34,9 @@ Tie to the code: `harness/shim_hashtable.c` / `shim_hashset.c` print after every
 `bucket:id:key:next_id` (ids = allocation order, assigned at first sight) and the iterator as `bucket_index/prev id/next id`; the
 Lean drivers run `Model/PHash.lean` alongside the bucket-list model and print the same from the heap, so L3 compares link
 structure and entry identity on every run, and the `inv=` flag carries `shapeOk`, `toTable pm = model`, equal ledgers and equal
-iterators.  Only executed, not proved: the driver-side agreement of the hash *set* wrapper (it owns a `PTable`; no separate
-pointer-level set theorems), and `shapeOk` as a run-time check of `Shape`.
+iterators.  The hash *set* wrapper at pointer level (`PSet`, `Proofs/PHashSet.lean`) is proved below (`set_history_refines_ideal`,
+`set_iter_program_refines_ideal`); `shapeOk` as a run-time check of `Shape` is only executed.  The hash clauses of C20 are
+restated on the pointer-level model at the end (`c20_*`).
 
 Hypotheses: `WF c t` (established by `new_establishes_wf`, preserved by everything); for the iterator `ItWF t it` (established by
 `iter_init_valid`, preserved by `iter_next` / `iter_remove`, invalidated — as in C — by table mutations outside the iterator). -/
@@ -214,6 +216,116 @@ theorem iter_program_commutes (c : HCfg) (ops : List HashTable.IterOp) (t : PTab
       (piterRun c ops t it m).2.1.toIter (piterRun c ops t it m).2.2.1, (piterRun c ops t it m).2.2.2) =
         HashTable.iterRun c ops (PTable.toTable t) (t.toIter it) m := piterRun_wf c ops h it hit m
 
+
+/-! ### the hash set at pointer level
+
+`PSet` (`Proofs/PHashSet.lean`): `cc_hashset_add / remove / contains / remove_all / size` and the set iterator as thin calls
+into the pointer-level table with the dummy value `(int*) 1`, exactly as `src/cc_hashset.c` forwards to `cc_hashtable_*`. -/
+
+/-- **every set operation preserves `WF` and commutes** with `Model/HashSet.lean` on the set read off the heap -/
+theorem set_step_commutes (c : HCfg) (s : PSet) (h : s.WF c) (op : Set.Op) (m : Mem) :
+    (s.step c op m).2.1.WF c ∧
+    ((s.step c op m).1, (s.step c op m).2.1.toSet, (s.step c op m).2.2) = s.toSet.step c op m := PSet.step_wf c h op m
+
+/-- **set histories commute** -/
+theorem set_history_commutes (c : HCfg) (ops : List Set.Op) (s : PSet) (h : s.WF c) (m : Mem) :
+    (s.run c ops m).2.2.1.WF c ∧
+    ((s.run c ops m).1, (s.run c ops m).2.1, (s.run c ops m).2.2.1.toSet, (s.run c ops m).2.2.2) = s.toSet.run c ops m :=
+  PSet.run_wf c ops h m
+
+/-- **any history of set operations on the pointer-level model behaves like an ideal finite set**: statuses and answers are
+those of the ideal set (told which insertions were refused), the elements chained on the heap at the end are the ideal set's,
+`WF` holds at the end, the ledger is balanced — one entry block per element (`live + size` is conserved) — and fault-free -/
+theorem set_history_refines_ideal (c : HCfg) (ops : List Set.Op) (s : PSet) (m : Mem) (sp : Set)
+    (h : s.WF c) (hl : s.size + 3 ≤ liveOf m s.triple) (hs : s.toSet.abs.Perm sp) :
+    (s.run c ops m).1 = (Set.run sp ops (s.run c ops m).2.1).1 ∧
+    (s.run c ops m).2.2.1.toSet.abs.Perm (Set.run sp ops (s.run c ops m).2.1).2 ∧
+    (s.run c ops m).2.2.1.WF c ∧
+    liveOf (s.run c ops m).2.2.2 s.triple + s.size = liveOf m s.triple + (s.run c ops m).2.2.1.size ∧
+    (s.run c ops m).2.2.2.fault = m.fault := by
+  obtain ⟨w, e⟩ := PSet.run_wf c ops h m
+  have r := C02.set_history_refines c ops s.toSet m sp h.2 hl hs
+  rw [← e] at r
+  exact ⟨r.1, r.2.1, w, r.2.2.2.1, r.2.2.2.2⟩
+
+/-- **set iterator programs commute**: any sequence of `cc_hashset_iter_next` / `cc_hashset_iter_remove` calls from a valid
+iterator keeps the table well-formed and the saved ids NULL-or-live, and is the same program on `Model/HashSet.lean` -/
+theorem set_iter_program_commutes (c : HCfg) (prog : List HashTable.IterOp) (s : PSet) (h : s.WF c) (it : PIter)
+    (hit : ItWF s.table it) (m : Mem) :
+    PHash.WF c (PSet.iterRun c prog s it m).2.1.table ∧
+    ItWF (PSet.iterRun c prog s it m).2.1.table (PSet.iterRun c prog s it m).2.2.1 ∧
+    (PSet.iterRun c prog s it m).2.1.triple = s.triple ∧
+    ((PSet.iterRun c prog s it m).1, (PSet.iterRun c prog s it m).2.1.toSet,
+      (PSet.iterRun c prog s it m).2.1.table.toIter (PSet.iterRun c prog s it m).2.2.1, (PSet.iterRun c prog s it m).2.2.2) =
+        HashSet.iterRun c prog s.toSet (s.table.toIter it) m := PSet.iterRun_wf c prog h.table it hit m
+
+/-- **set iterator programs refine the ideal set cursor**: from `cc_hashset_iter_init`, any program of next / remove calls
+yields what the ideal cursor over the ideal set yields, leaves the ideal set's elements on the heap, a well-formed set, saved
+ids that are NULL or live, and a balanced, fault-free ledger -/
+theorem set_iter_program_refines_ideal (c : HCfg) (prog : List HashTable.IterOp) (s : PSet) (m : Mem)
+    (h : s.WF c) (hl : s.size + 3 ≤ liveOf m s.triple) :
+    (PSet.iterRun c prog s (s.iterInit m).1 m).1 = ((HashSet.SCursor.mk s.toSet.abs none).run s.toSet.abs prog).1 ∧
+    (PSet.iterRun c prog s (s.iterInit m).1 m).2.1.toSet.abs = ((HashSet.SCursor.mk s.toSet.abs none).run s.toSet.abs prog).2.2 ∧
+    (PSet.iterRun c prog s (s.iterInit m).1 m).2.1.WF c ∧
+    ItLive (PSet.iterRun c prog s (s.iterInit m).1 m).2.1.table (PSet.iterRun c prog s (s.iterInit m).1 m).2.2.1 ∧
+    (PSet.iterRun c prog s (s.iterInit m).1 m).2.2.2.fault = m.fault ∧
+    liveOf (PSet.iterRun c prog s (s.iterInit m).1 m).2.2.2 s.triple + s.size =
+      liveOf m s.triple + (PSet.iterRun c prog s (s.iterInit m).1 m).2.1.size := by
+  obtain ⟨iw, ei⟩ := iterInit_wf c h.table m
+  obtain ⟨w, iw2, _, e⟩ := PSet.iterRun_wf c prog h.table (s.iterInit m).1 iw m
+  have r := HashSet.iterRun_refines c prog s.toSet m h.2 hl
+  have hit : s.table.toIter (s.iterInit m).1 = (s.toSet.iterInit m).1 := congrArg Prod.fst ei
+  rw [← hit, ← e] at r
+  exact ⟨r.1, r.2.1, ⟨w.1, r.2.2.1⟩, iw2.live, r.2.2.2.1, r.2.2.2.2.1⟩
+
+
+/-! ### C20's hash clauses on the pointer-level model -/
+
+/-- the capacity of a well-formed heap table is a power of two (at most `2^31`) and the bucket array has that many slots -/
+theorem c20_capacity_pow_two (c : HCfg) (t : PTable) (h : WF c t) :
+    (∃ k, k < 32 ∧ t.capacity = 2 ^ k) ∧ t.buckets.length = t.capacity := ⟨h.2.1, h.geo.len⟩
+
+/-- after every successful insertion `size ≤ (size_t)(capacity × load_factor)` -/
+theorem c20_load_bound_after_insert (c : HCfg) (t : PTable) (h : WF c t) (key : Option Nat) (v : Nat) (m : Mem)
+    (hok : (t.add c key v m).1 = .ok) :
+    (t.add c key v m).2.1.size ≤ c.thr (t.add c key v m).2.1.capacity := by
+  obtain ⟨w, e, _⟩ := add_wf c h key v m
+  have hs := (HashTable.add_spec c (PTable.toTable t) key v m h.2).2.1
+  rw [← e] at hs
+  have hthr : (PTable.toTable (t.add c key v m).2.1).threshold = c.thr (PTable.toTable (t.add c key v m).2.1).capacity := w.2.2.2.2.2.2
+  have := (hs hok).2.1
+  rw [hthr] at this
+  exact this
+
+/-- a successful `resize(capacity << 1)` doubles the capacity (and the bucket array) and re-derives the threshold -/
+theorem c20_resize_doubles (c : HCfg) (t : PTable) (h : WF c t) (m : Mem)
+    (hok : (t.resize c (t.capacity <<< 1) m).1 = .ok) :
+    (t.resize c (t.capacity <<< 1) m).2.1.capacity = 2 * t.capacity ∧
+    (t.resize c (t.capacity <<< 1) m).2.1.buckets.length = 2 * t.capacity ∧
+    (t.resize c (t.capacity <<< 1) m).2.1.threshold = c.thr (2 * t.capacity) := by
+  have w := (resize_wf c h m).1
+  have hcap : (t.resize c (t.capacity <<< 1) m).2.1.capacity = 2 * t.capacity := by
+    have hmax : t.capacity ≠ Gen.MAX_POW_TWO := by
+      intro hm
+      have : (t.resize c (t.capacity <<< 1) m).1 = .errMaxCapacity := by unfold PTable.resize; rw [if_pos hm]
+      rw [this] at hok; cases hok
+    have hspec := HashTable.resize_spec c (PTable.toTable t) m h.2 hmax
+    simp only at hspec
+    have he : ((t.resize c (t.capacity <<< 1) m).1, PTable.toTable (t.resize c (t.capacity <<< 1) m).2.1,
+        (t.resize c (t.capacity <<< 1) m).2.2) = (PTable.toTable t).resize c (t.capacity <<< 1) m := (resize_wf c h m).2.1
+    rw [show (PTable.toTable t).capacity = t.capacity from rfl, ← he] at hspec
+    cases ha : (m.allocT t.triple).1 with
+    | false =>
+      have := hspec.1 ha
+      simp only [Prod.mk.injEq] at this
+      rw [this.1] at hok; cases hok
+    | true => exact (hspec.2 ha).2.2.2.2.1
+  have hthr : (PTable.toTable (t.resize c (t.capacity <<< 1) m).2.1).threshold =
+      c.thr (PTable.toTable (t.resize c (t.capacity <<< 1) m).2.1).capacity := w.2.2.2.2.2.2
+  refine ⟨hcap, by rw [w.geo.len, hcap], ?_⟩
+  have : (t.resize c (t.capacity <<< 1) m).2.1.threshold = c.thr (t.resize c (t.capacity <<< 1) m).2.1.capacity := hthr
+  rw [this, hcap]
+
 /-! ### non-vacuity -/
 
 /-- constant hash (everything in one chain), load factor 3/4 -/
@@ -252,5 +364,25 @@ example : let it0 := (exTable.iterInit {}).1
     let r := piterRun exCfg [.remove, .next, .remove, .remove, .next] exTable it0 { live := 5 }
     r.1.map (·.1) = [.errKeyNotFound, .ok, .ok, .errKeyNotFound, .ok] ∧ r.2.2.1.prev = some 1 ∧ r.2.2.1.next = some 0 ∧
     (r.2.1.heap.get 2).isSome = false ∧ r.2.1.shapeOk = true := by decide
+
+/-- a pointer-level set: the example table with every value the dummy is not at hand, so build one from the constructor -/
+def exSet : PSet :=
+  match (PTable.new exCfg 2 .conf {}).2.1 with
+  | some t => (PSet.run exCfg ⟨t, .conf⟩ [.add (some 1), .add (some 2), .add none, .add (some 1)] { live := 3 }).2.2.1
+  | none => ⟨{ capacity := 0, size := 0, threshold := 0, buckets := [] }, .conf⟩
+
+example : exSet.WF exCfg := by
+  obtain ⟨_, hn⟩ := new_establishes_wf exCfg 2 .conf {}
+  have hsome : (PTable.new exCfg 2 .conf {}).2.1 = some
+      { capacity := 2, size := 0, threshold := 1, buckets := [none, none], triple := .conf } := rfl
+  unfold exSet
+  rw [hsome]
+  have w := hn _ hsome
+  exact (set_history_commutes exCfg _ ⟨_, .conf⟩ ⟨w.1, w.2, (by decide), rfl⟩ _).1
+
+example : exSet.size = 3 ∧ exSet.toSet.abs = [none, some 1, some 2] ∧ exSet.table.shapeOk = true := by decide
+
+example : let r := PSet.iterRun exCfg [.next, .remove, .remove, .next] exSet (exSet.iterInit {}).1 { live := 6 }
+    r.1 = [(.ok, some none), (.ok, none), (.errKeyNotFound, none), (.ok, some (some 1))] ∧ r.2.1.size = 2 := by decide
 
 end CC.Properties.C02PHash
